@@ -39,6 +39,78 @@ func runC18(c *Ctx) {
 	rulePanics(c)
 }
 
+// ruleJoin: a function that starts a helper goroutine which reports over an unbuffered channel created by that function returns
+// only after receiving from it (C18: otherwise the goroutine blocks forever in its send; C02: the relay would return — and its
+// deferred Close cut the target connection — while the other direction is still copying).
+func ruleJoin(c *Ctx, rule string) {
+	p := c.P
+	nj := 0
+	for _, f := range p.FnsIn("service") {
+		for _, cl := range eng.Calls(f) {
+			g, ok := cl.(*ssa.Go)
+			if !ok {
+				continue
+			}
+			for _, h := range p.Callees(g) {
+				if !p.InRepo(h) || len(h.Blocks) == 0 {
+					continue
+				}
+				for _, b := range h.Blocks {
+					for _, ins := range b.Instrs {
+						s, ok := ins.(*ssa.Send)
+						if !ok {
+							continue
+						}
+						// the channel, in f's terms: through a captured variable or through a parameter bound at the go statement
+						var chans []ssa.Value
+						for _, o := range p.Origins(s.Chan, eng.Plain) {
+							if pa, isP := o.(*ssa.Parameter); isP && pa.Parent() == h {
+								for i, q := range h.Params {
+									if q == pa && i < len(g.Call.Args) {
+										chans = append(chans, p.Origins(g.Call.Args[i], eng.Plain)...)
+									}
+								}
+								continue
+							}
+							chans = append(chans, o)
+						}
+						isMine := func(v ssa.Value) bool {
+							for _, o := range p.Origins(v, eng.Plain) {
+								for _, x := range chans {
+									if o == x {
+										return true
+									}
+								}
+							}
+							return false
+						}
+						local, unbuffered := false, false
+						for _, x := range chans {
+							if mc, ok := x.(*ssa.MakeChan); ok && mc.Parent() == f {
+								local = true
+								if n, ok := eng.ConstInt(mc.Size); ok && n == 0 {
+									unbuffered = true
+								}
+							}
+						}
+						if !local || !unbuffered {
+							continue
+						}
+						nj++
+						isRecv := func(ins ssa.Instruction) bool {
+							u, ok := ins.(*ssa.UnOp)
+							return ok && u.Op == token.ARROW && isMine(u.X)
+						}
+						ok2, bad := eng.MustPass(eng.After(g), isRecv)
+						c.CheckAt(rule, short(f)+":joins-helper-goroutine", g, ok2, fmt.Sprintf("the function can return at %s without receiving from the unbuffered channel its helper goroutine sends on: the goroutine blocks forever in the send (leak), and whatever the function closes on return is cut while the helper is still using it", p.IPos(bad)))
+					}
+				}
+			}
+		}
+	}
+	c.Floor(rule, "helper goroutines that report over an unbuffered local channel", nj, 1)
+}
+
 // ruleSockOwned: once the outbound socket of a new association exists, every way out of the datagram code hands it to the
 // association table (whose goroutine closes it) or closes it: a rejected datagram must not leave a descriptor behind.
 func ruleSockOwned(c *Ctx) {
@@ -411,64 +483,7 @@ func ruleClosePair(c *Ctx) {
 	}
 	c.Floor("CLOSEPAIR", "owning DialStream call sites", n, 1)
 
-	// JOIN: a function that starts a helper goroutine which sends its result on a channel returns only after receiving it
-	nj := 0
-	for _, f := range p.FnsIn("service") {
-		for _, cl := range eng.Calls(f) {
-			g, ok := cl.(*ssa.Go)
-			if !ok {
-				continue
-			}
-			for _, lit := range p.Callees(g) {
-				if !p.InRepo(lit) || lit.Parent() != f {
-					continue
-				}
-				// channels (cells of f) the literal sends on
-				for _, b := range lit.Blocks {
-					for _, ins := range b.Instrs {
-						s, ok := ins.(*ssa.Send)
-						if !ok {
-							continue
-						}
-						var ch ssa.Value = s.Chan
-						chans := p.Origins(ch, eng.Plain)
-						isMine := func(v ssa.Value) bool {
-							for _, o := range p.Origins(v, eng.Plain) {
-								for _, x := range chans {
-									if o == x {
-										return true
-									}
-								}
-							}
-							return false
-						}
-						// is the channel created in f (MakeChan)?
-						local := false
-						unbuffered := false
-						for _, x := range chans {
-							if mc, ok := x.(*ssa.MakeChan); ok && mc.Parent() == f {
-								local = true
-								if n, ok := eng.ConstInt(mc.Size); ok && n == 0 {
-									unbuffered = true
-								}
-							}
-						}
-						if !local || !unbuffered {
-							continue
-						}
-						nj++
-						isRecv := func(ins ssa.Instruction) bool {
-							u, ok := ins.(*ssa.UnOp)
-							return ok && u.Op == token.ARROW && isMine(u.X)
-						}
-						ok2, bad := eng.MustPass(eng.After(g), isRecv)
-						c.CheckAt("JOIN", short(f)+":joins-helper-goroutine", g, ok2, fmt.Sprintf("the function can return at %s without receiving from the unbuffered channel its helper goroutine sends on: the goroutine blocks forever in the send (leak) and its connection cleanup never completes", p.IPos(bad)))
-					}
-				}
-			}
-		}
-	}
-	c.Floor("JOIN", "helper goroutines that report over an unbuffered local channel", nj, 1)
+	ruleJoin(c, "JOIN")
 
 	// association socket: see C14.TEARDOWN (shared)
 	ruleTeardown(c, "TEARDOWN")
